@@ -65,7 +65,7 @@ for root in sys.argv[2:]:
                     "caught": "exit=1" in res,
                 },
             }, open(os.path.join(out, "meta.json"), "w"), indent=1)
-            if sid in OTHER_CHECK:
+            if sid in OTHER_CHECK and "exit=1" not in res:
                 m_ = json.load(open(os.path.join(out, "meta.json")))
                 m_["check_result"].update(OTHER_CHECK[sid])
                 json.dump(m_, open(os.path.join(out, "meta.json"), "w"), indent=1)
